@@ -234,8 +234,8 @@ def main():
                     if m:
                         per[m.group(1)] = line
         # final regression pass with the committed machinery (own check + previous catchers)
-        fin = f"/tmp/seedres/FINAL3/{name}.txt"
-        if os.path.exists(fin):
+        for fin in [f"/tmp/seedres/FINAL3/{name}.txt", f"/tmp/seedres/FINAL4/{name}.txt"] if rnd < 7 else [f"/tmp/seedres/FINAL4/{name}.txt"]:
+          if os.path.exists(fin):
             for line in open(fin).read().splitlines():
                 m = re.match(r"(C\d\d) exit=", line)
                 if m:
